@@ -3,13 +3,14 @@
 # check of its property is run at the quick tier; prints one line per change. /repo must be clean; it is left clean.
 # A change counts as detected when the check exits 1 (or, for the few recorded in meta.json as caught by a sibling
 # check or by the thorough tier only, when that one does).
-cd /verif || exit 2
+cd "$(dirname "$0")" || exit 2
+V=$(pwd)
 ids="$@"; [ -z "$ids" ] && ids=$(ls seeded)
 rc=0
 for id in $ids; do
   p=${id%%-*}
   out=/tmp/regress-$id.log
-  ./tools_try_mutant.sh /verif/seeded/$id/patch.diff $p > $out 2>&1
+  ./tools_try_mutant.sh $V/seeded/$id/patch.diff $p > $out 2>&1
   e=$(grep -o 'check exit=[0-9]*' $out | tail -1)
   if grep -q 'patch does not apply' $out; then e="patch-does-not-apply"; fi
   echo "$id $p $e $(grep -m1 'class=' $out | cut -c1-120)"
